@@ -1775,10 +1775,25 @@ func (fx *FuncExec) afterStore(st *State, x *ssa.Store) {
 	for _, ss := range fx.fc.Stores {
 		if ss.Callee == name && ss.Ordinal == fx.storeOrd[x] {
 			env := fx.specEnv(st, fx.entry)
+			fx.withLoop(env, st)
 			for _, a := range ss.Asserts {
 				fx.oblige("assert@store", st, fx.evalBool(env, a), fmt.Sprintf("after store %s#%d: %s", name, ss.Ordinal, a.Text), x.Pos())
 			}
 			fx.usedCallSites[ss] = true
+		}
+	}
+}
+
+// withLoop makes $idx available in clauses attached to an instruction inside a loop: the innermost
+// loop around the current instruction.
+func (fx *FuncExec) withLoop(env *SpecEnv, st *State) {
+	if fx.curInstr == nil || fx.curInstr.Block() == nil {
+		return
+	}
+	for _, li := range fx.loops {
+		if li.blocks[fx.curInstr.Block()] && (env.loop == nil || len(li.blocks) < len(env.loop.blocks)) {
+			env.loop = li
+			env.idxState = st
 		}
 	}
 }
